@@ -284,6 +284,23 @@ def run_callseq(ctx):
     if 'NoResidue' not in bad.violated:
         raise core.Machinery('vacuity guard: sticky variant not rejected')
     jobs = []
+    # vacuity guard: the requests must exercise something (a finder whose threshold detects nothing makes every sequence pass)
+    empty = []
+    for kind, K in kinds(ctx.quick).items():
+        with warnings.catch_warnings():
+            warnings.simplefilter('ignore')
+            for r in K['subset']:
+                if r in ('nosources', 'empty', 'high'):
+                    continue
+                try:
+                    v = K['reqs'][r](K['make']())
+                except Exception:  # noqa
+                    continue
+                first = v[0] if isinstance(v, list) and v else v
+                if v is None or (isinstance(v, list) and first is None):
+                    empty.append(f'{kind}:{r}')
+    if empty:
+        raise core.Machinery('vacuous CallSeq requests (nothing detected / returned): ' + ', '.join(empty))
     for kind, K in kinds(ctx.quick).items():
         reqs = '{' + ', '.join(f'"{r}"' for r in K['subset']) + '}'
         cfg = core.make_cfg(ctx, 'GEN_CallSeq.cfg', name=f'GEN_CallSeq_{kind}.cfg', Requests=reqs, Leaky='{}', MaxDepth=K['depth'])
